@@ -4,12 +4,12 @@ import os
 import re
 import vcheck as V
 
-OPK = {1: "writer.Sink", 2: "writer.Sink(concurrent)", 3: "FileSink", 4: "ChannelSink", 5: "FileSink/partial-write"}
+OPK = {1: "writer.Sink", 2: "writer.Sink(concurrent)", 3: "FileSink", 4: "ChannelSink", 5: "FileSink/partial-write", 6: "ChannelSink(concurrent)"}
 _M_ITEM = re.compile(r"\((\d+)(?:%N)?,\((\d+)(?:%N)?,(\d+)(?:%N)?,(\w+)\)\)")
 
 ARGS = {
-    ("C13", "quick"): ["-modes", "w,c,f,h,p", "-conc-rounds", "3", "-chan-repeat", "1", "-partial-random", "60"],
-    ("C13", "thorough"): ["-modes", "w,c,f,h,p", "-conc-rounds", "6", "-chan-repeat", "6", "-partial-random", "1500"],
+    ("C13", "quick"): ["-modes", "w,c,f,h,p,g", "-conc-rounds", "3", "-chan-repeat", "1", "-partial-random", "60", "-chan-rounds", "120"],
+    ("C13", "thorough"): ["-modes", "w,c,f,h,p,g", "-conc-rounds", "6", "-chan-repeat", "6", "-partial-random", "1500", "-chan-rounds", "800"],
 }
 # the concurrent calls are run a second time in a -race instrumented binary (both tiers): a missing or too weak lock in FileSink is
 # masked by O_APPEND's atomic write(2) and shows up only there
@@ -57,7 +57,7 @@ MANIFEST = {
                     "channel_exactly_one, channel_never_both, channel_bounded_partial (model only); tie: sinksh runs every table of 0..3 formats (values empty / "
                     "1 byte / several) x configured format (unset, 3 present, 1 absent) x 6 writer behaviours (+ nil writer/event/map, 5000-byte value), "
                     "1..16 concurrent Process calls with the stream split back into whole values (thorough: under -race), FileSink under part-way failing writes (RLIMIT_FSIZE in a child process; finding KF-C13-filesink-retry-leaves-prefix), FileSink on file / /dev/null / "
-                    "stdout / stderr / ENOSPC destination / uncreatable directory, and 84 ChannelSink scenarios (channel empty, receiver waiting, full, "
+                    "stdout / stderr / ENOSPC destination / uncreatable directory, 84 ChannelSink scenarios and simultaneous ChannelSink callers on a buffered channel with fewer free slots than callers, released through a spin barrier, nobody draining, every call under a watchdog (channel empty, receiver waiting, full, "
                     "drained late x context none/done/early/late x timeout short/long) on the real sinks; Run_Sinks.mismatches evaluated by vm_compute",
             "design_ref": "5.C13", "note": _NOTE, "technique": _TECH, "engine": "coq-sinks", "category": "proof"},
 }
@@ -76,7 +76,17 @@ def _build(ctx, race=False):
 def _run_driver(ctx, binp, cdir, args, label="sinksh"):
     os.makedirs(cdir, exist_ok=True)
     env = dict(os.environ, VERIF_SEED=str(ctx.seed))
-    rc, out = V.run([binp, "-out", cdir, "-prefix", "cases"] + args, env=env, timeout=3000)
+    import subprocess
+    try:
+        rc, out = V.run([binp, "-out", cdir, "-prefix", "cases"] + args, env=env, timeout=300 if ctx.tier == "quick" else 1500)
+    except subprocess.TimeoutExpired as ex:
+        o = ex.stdout if isinstance(ex.stdout, str) else (ex.stdout or b"").decode("utf-8", "replace")
+        rc, out = 124, "TIMEOUT\n" + o[-3000:]
+    if rc == 124:
+        rp = V.write_replay(ctx, "harness-timeout-" + label, {"kind": "correspondence", "engine": "sinksh-crash", "output": out[-6000:]})
+        ctx.violations.append({"match": "sinks:hang", "replay": rp, "no_input": True,
+                               "what": "%s did not finish within its time limit: a sink call never returned and the driver's own watchdogs did not get to report it" % label})
+        return None, None, out
     if rc != 0:
         rp = V.write_replay(ctx, "harness-run-" + label, {"kind": "correspondence", "engine": "sinksh-crash", "output": out[-6000:]})
         what = "%s crashed" % label
